@@ -412,7 +412,7 @@ func runC18(c *core.Ctx, res *core.Result) {
 		dkey := func(i int) []byte { return []byte(fmt.Sprintf("d%07d", total-i)) }
 		var dstop atomic.Bool
 		var dwg sync.WaitGroup
-		var seeksDuring atomic.Int64
+		var seeksDuring, getsDuring atomic.Int64
 		for g := 0; g < 6; g++ {
 			dwg.Add(1)
 			rr := r.Derive(uint64(3000 + g))
@@ -427,6 +427,15 @@ func runC18(c *core.Ctx, res *core.Result) {
 						j = int64(rr.Intn(int(j) + 1)) // any key published so far, not only the newest
 					}
 					t := dkey(int(j))
+					if g%2 == 1 {
+						// point lookup of a key whose immediate predecessor is being linked right now
+						getsDuring.Add(1)
+						if v, found := mt.Get(t); !found || string(v) != "v" {
+							report(fmt.Sprintf("descending-insert phase: Get(%s) = (%q, found=%v) although the key was inserted before the lookup started (a new key was being inserted right in front of it)", t, v, found))
+							return
+						}
+						continue
+					}
 					it := mt.NewIterator()
 					it.Seek(t)
 					seeksDuring.Add(1)
@@ -456,6 +465,7 @@ func runC18(c *core.Ctx, res *core.Result) {
 			return
 		}
 		res.Count("descending_phase_seeks", seeksDuring.Load())
+		res.Count("descending_phase_gets", getsDuring.Load())
 	}
 
 	// ---- pool: readers during switching
